@@ -160,6 +160,8 @@ func c10Font(c *explore.Ctx) (*sfnt.Font, string) {
 			{Left: 2, Right: 1}: {First: &gtab.GposValueRecord{XAdvance: 25}},
 			{Left: 3, Right: 4}: {First: &gtab.GposValueRecord{XAdvance: -7}},
 			{Left: 5, Right: 5}: {First: &gtab.GposValueRecord{XAdvance: 9}},
+			{Left: 0, Right: 1}: {First: &gtab.GposValueRecord{XAdvance: -13}}, // .notdef is a glyph like any other
+			{Left: 3, Right: 0}: {First: &gtab.GposValueRecord{XAdvance: 17}},
 		}}))
 		desc += ", GPOS 2.1"
 	}
@@ -440,7 +442,7 @@ func c10Subset(r *run.Run) {
 			// rules keep their meaning: all sequences of <= 3 retained glyphs
 			if (f.Gsub != nil || f.Gpos != nil) && ng > 1 {
 				// all usable retained glyphs: the listed ones and the substitution outputs appended by the closure
-				var alphabet []glyph.ID
+				alphabet := []glyph.ID{0}
 				for _, og := range origOf[1:] {
 					if usable[og] {
 						alphabet = append(alphabet, og)
